@@ -155,6 +155,9 @@ func cmdDebug(args []string) {
 	}
 	vs := solveAll(jobs, *timeout, 16)
 	counts := map[string]int{}
+	for _, k := range keys {
+		_ = k
+	}
 	for _, v := range vs {
 		counts[v.Status]++
 		if v.Status != "discharged" || *all {
